@@ -17,6 +17,7 @@ DECIDED = ("Every unsafe operation (HIR), every Assert terminator (overflow, bou
            "C an audited ledger entry, with a parameter checker where the reason has a number in it (digit count, capacity, table sizes); or it is a stated assumption / an unsafe fn's lifted "
            "contract / out of scope. A site that is none of these is reported as UNDISCHARGED.")
 DECIDED = DECIDED + ' Discharge order per site: automatic (intervals, incl. bounded accumulators, result-range summaries of callees, items of constant ranges); in every calling context for non-public helpers; const fn reachable only from constant initialisers; exact ledger key; call of a private unsafe helper whose own operations rest on named invariants; ledger entry of the same kind whose own site is gone, in a call-graph related function (one entry per site).'
+DECIDED = DECIDED + ' Also: `panic_fmt` calls from macro expansions (assert!/panic! with a message) are obligation sites; a closure used only as the per-item function of an iterator adaptor over a constant table is analysed with the item ranging over that table; push sites are counted through private helpers that push exactly one entry per call; a private helper standing for one alphabeta call hands INV-LEGAL to its call sites; the move-list capacity may be a named constant.'
 NOT_DECIDED = ("that the invariants' semantic premises hold on actual positions (e.g. that legal move generation never yields a king capture from a valid position: C01/C06); "
                "panics inside std/arrayvec callees beyond the table of known panic preconditions; the audited reasons of class C without a checker are reviewed text, not a proof")
 EXPLANATION = ("K5 intervals over K4 path summaries for the automatic part; the rest is an exact-key ledger (ledger/C07.json) whose invariants are structural rules of the other "
